@@ -6,7 +6,7 @@ LEVEL = "exploration"
 ENGINE = "ormsim"
 TECHNIQUE = ("deterministic simulation: seeded ORM session histories on real SQLite; after every flush/commit the probed rows are compared with "
              "the rows implied by the in-memory state of the objects the session holds, rows of everything else must be untouched; after "
-             "commit a fresh Session must reproduce the graph")
+             "commit a fresh Session must reproduce the graph; includes row switches (delete + add of the same primary key in one flush)")
 LEVEL_TEXT = ("seeded search over session histories (add, scalar and relationship changes on one-to-many / many-to-one / one-to-one / many-to-many "
               "incl. self-referential, joined inheritance, natural-PK change, delete, expunge, flush/commit/rollback, queries, lazy loads) over 4 "
               "cascade configurations; self-consistency oracle evaluated from raw-connection probes after each flush.  Sampled.")
